@@ -69,7 +69,7 @@ def run(chk):
                 # flags through the real FlagParser: basic_auth option + plugins option
                 conv = scen.Conversation(args=['--basic-auth', cred.decode('utf-8', 'surrogateescape')] if cred.isascii() else [],
                                          flag_opts=({'plugins': plugins} if cred.isascii() else
-                                                    {'plugins': plugins, 'basic_auth': cred}))
+                                                    {'plugins': plugins, 'basic_auth': cred}), threaded=(k % 4 == 1))
                 name = names[k % 4]
                 lines = b''.join(name + rnd.choice([b': ', b':', b':  ']) + v + b'\r\n' for v in values)
                 # the credential line goes before or after the other headers
@@ -92,7 +92,7 @@ def run(chk):
                 cases.append({'id': cid, 'cred': list(cred), 'req': list(raw), 'cgot': list(t['clients'][0]['got']),
                               'ceof': t['clients'][0]['eof'], 'nconnect': len(t['connects']), 'ugot': list(ugot),
                               'hooks': len([h for h in log if h[1] in REQUEST_HOOKS]), 'userplugin': userplugin})
-                descs[cid] = {'situation': sname, 'method': mname, 'header_name': name.decode(), 'segments': style, 'user_plugin': userplugin,
+                descs[cid] = {'mode': 'threaded' if k % 4 == 1 else 'threadless', 'situation': sname, 'method': mname, 'header_name': name.decode(), 'segments': style, 'user_plugin': userplugin,
                               'credentials': cred.decode('latin1'), 'loop_alive': t['alive']}
     results, rej = tlc.run_sharded('TraceAuth', 'TraceAuth.cfg', cases, shards=16, timeout=1200)
     m = tlc.Merged(results)
